@@ -28,6 +28,7 @@ from hypothesis import strategies as st
 
 from . import schema as S
 from .schema import NUM, Sch
+from .spec import expr_cols as S_expr_cols
 
 INT_VALS = [-3, -2, -1, 0, 1, 2, 3]
 KEY_INT_VALS = [0, 1, 2]
@@ -539,6 +540,10 @@ def step_project(g: G, sch: Sch):
         arg = None
         if argt:
             cands = sch.of_type(*argt)
+            if fn in ("any", "all"):
+                # logic over NULL operands is the documented caveat (Pandas skips them, SQL's CASE counts them as false):
+                # a bool column that an outer join / shift made nullable is not aggregated with any/all
+                cands = [c for c in cands if not sch.cols[c]["null"]]
             if not cands:
                 continue
             arg = ["col", g.pick(cands)]
@@ -906,6 +911,21 @@ class Builder:
             # the mutation may have hit an earlier node of the mini case: only accept changes of this node
             if m["nodes"][:node_id] != self.case["nodes"][:node_id]:
                 continue
+            if kind == "column_ref" and "src" in nd:
+                # the mutation knows types only: a column that came in must be as null-free as one that went out
+                # (comparisons / logic / any / all on NULL operands are the documented caveat and never generated)
+                def _cols(n):
+                    es = [e for _, e in n.get("ops", [])] + ([n["expr"]] if "expr" in n else [])
+                    acc = set()
+                    for e in es:
+                        acc |= S_expr_cols(e)
+                    return acc
+
+                sch = self.schemas[nd["src"]]
+                came, went = _cols(new_nd) - _cols(nd), _cols(nd) - _cols(new_nd)
+                flags = lambda c: (sch.cols[c]["null"], sch.cols[c]["zn"]) if c in sch.cols else (True, True)  # noqa: E731
+                if any(flags(c) != (False, False) and flags(c) not in [flags(w) for w in went] for c in came):
+                    continue
             return self.add(new_nd)
         return None
 
